@@ -123,6 +123,15 @@ func main() {
 				fmt.Println(l)
 			}
 		}
+	case "funcs":
+		p, err := loadProgram(LoadOpts{})
+		if err != nil {
+			fmt.Println("ERR", err)
+			os.Exit(1)
+		}
+		for _, s := range listFuncs(p) {
+			fmt.Println(s)
+		}
 	case "params":
 		p, err := loadProgram(LoadOpts{NoSSA: true})
 		if err != nil {
